@@ -508,6 +508,14 @@ class Explorer:
                     return set(inner)
         return None
 
+    @staticmethod
+    def _bkey(v):
+        """Constraint key of a boolean value. A comparison by PartialEq (`a == b` written as a call) has the same answer wherever
+        it is asked on the path as long as its operands are the same values: the call site is left out of the key."""
+        if v[0] == "call" and short(v[1]) in ("eq", "ne") and len(v[2]) == 2 and ("PartialEq" in v[1] or "core::cmp" in v[1]):
+            return "%s(%s, %s)" % (short(v[1]), vfmt(v[2][0]), vfmt(v[2][1]))
+        return vfmt(v)
+
     def bool_value(self, v, cons):
         if v[0] == "const" and isinstance(v[1], int):
             return bool(v[1])
@@ -525,7 +533,7 @@ class Explorer:
                 kv = self.known_variant(v[2][0], cons)
                 if kv is not None and len(kv) == 1:
                     return kv == {tests[n][1]}
-        key = vfmt(v)
+        key = self._bkey(v)
         c = cons.get(key)
         if isinstance(c, bool):
             return c
@@ -545,7 +553,7 @@ class Explorer:
             if n in tests and v[1].startswith("core::"):
                 want = tests[n] if val else 1 - tests[n]
                 self.assume_variant(v[2][0], {want}, cons)
-        cons[vfmt(v)] = val
+        cons[self._bkey(v)] = val
 
     def assume_variant(self, v, allowed, cons):
         """Record that enum value v has one of the discriminants in `allowed`, and what that
